@@ -745,6 +745,16 @@ class ExprMixin(object):
         raise Unsupported("attribute %s of %s" % (attr, t))
 
     def abs_attr(self, obj, attr, node):
+        """An attribute of an abstract object that is only passed around (e.g. a factory's callback methods stored in
+        a token): an abstract value of the sort `<Sort>.<attr>`, determined by the object (uninterpreted function).
+        Only for sorts the contract lists in `S.abs_attrs` - anything else stays outside the subset."""
+        allowed = getattr(self.spec, "abs_attrs", {})
+        if isinstance(obj.ty, TAbs) and attr in allowed.get(obj.ty.name, {}):
+            rty = TAbs(allowed[obj.ty.name][attr])          # {sort: {attribute: result sort}}
+            f = z3.Function("absattr_%s_%s" % (obj.ty.name, attr), sort(obj.ty), sort(rty))
+            self.assumptions.add("attribute %s of an abstract %s is an opaque value determined by the object (it is only "
+                                 "stored, never called, in the verified functions)" % (attr, obj.ty.name))
+            return Val(rty, f(obj.t))
         raise Unsupported("attribute %s of abstract %s" % (attr, obj.ty))
 
     def type_attr(self, obj, attr, node):
